@@ -582,6 +582,7 @@ class Hdf5Saver:
 
         """
         if path == '/':
+            path = self.h5group.name  # `h5group` itself; the root of the file only if `h5group` is the file
             gr = self.h5group[path]
         else:
             gr = self.h5group.create_group(path)  # raises ValueError if path already exists.
